@@ -74,6 +74,14 @@ def jobs_for(tier):
     jobs.append(BH.make_job("NR", [None], {"VF_BUDGET_DEFAULT": dev, "VF_BUDGET_TOTAL": dev, "VF_CALLMASK": full, "VF_MAX_OPS": dev,
                                            "VF_READ_ONE": 3, "VF_EXPECT_FATAL": '"scanner uses yyreject"'}, "san:buf-reject",
                             options=["reject"] + LEDGER_OPTS, cdefs=["VF_LEDGER"], san=True))
+    # REJECT scanners keep one state per scanned character in a buffer sized after the input buffer: a small first buffer (a short
+    # yy_scan_string), then a default-size one made by yyrestart() when no buffer is current, then a token longer than the first buffer
+    rmask = (1 << 1) | (1 << 3) | (1 << 6) | (1 << 7) | (1 << 8) | (1 << 9) | (1 << 11)
+    for api in ("NR", "R", "C99"):
+        jobs.append(BH.make_job(api, [None], {"VF_BUDGET_DEFAULT": 3, "VF_BUDGET_TOTAL": 3, "VF_CALLMASK": rmask, "VF_MAX_OPS": 3,
+                                              "VF_EXPECT_FATAL": '"enlarge buffer because scanner uses"'}, "san:buf-reject-resize-" + api,
+                                sources=[b"a" * 40 + b"\nab", b"b" * 30, b"ab", b""], contents=[b"b", b""],
+                                options=["reject"] + LEDGER_OPTS, cdefs=["VF_LEDGER"], san=True))
     # %array: tokens of YYLMAX-1, YYLMAX and YYLMAX+1 characters (with and without yymore carry-over)
     for api in ("NR", "R", "C99"):
         for more in (0, 1):
